@@ -176,7 +176,7 @@ theorem mark_unhealthy_minimal (score : κ → α → Nat) (p : Pool α) (n : α
 
 /-! ## exactly one serving pool -/
 
-/-- A request is served from exactly one node's pool: two entry nodes that have the same peer set and
+/-- (Corollary of the situation outside the finding's clause: a COMMON health view.)  Two entry nodes that have the same peer set and
     the same health view, are members of that set and healthy in that view, hand the request to the
     same node (itself if it is the healthy owner, otherwise the healthy owner by one forward). -/
 theorem single_server {le : α → α → Bool} (ho : TotalOrder le) (score : κ → α → Nat)
@@ -199,6 +199,66 @@ theorem single_server {le : α → α → Bool} (ho : TotalOrder le) (score : κ
   rw [← e, ← healthyOwner_congr p₂.self p₁.unhealthy p₂.unhealthy _ hu]
   apply healthyOwner_entry_irrelevant _ _ _ _ _ hh₁ hh₂
   exact (ranked_perm' (score k) p₁.nodes).mem_iff.mpr hin₁
+
+/-! ### known finding C17-split-health-view
+
+  The health view is per node (each node probes its peers itself, and "the local node is always
+  considered healthy").  When two entry nodes DISAGREE on the eligibility of a node — e.g. B has marked A
+  unhealthy while A, being the local node there, always counts itself healthy — a request for a key owned
+  by A is served from A's pool when it enters at A and from another pool when it enters at B.  Every
+  local pool spans the whole network, so the two pools can hand out the same address.
+  `single_pool_full` is the property as given, `excl_split_view` the narrow clause of the finding,
+  `single_server_partial` what is proved outside the clause, `split_view_witness` the defect as a theorem. -/
+
+/-- the property as given: two pools with the same peer set serve a key from the same node -/
+def single_pool_full (score : κ → α → Nat) (p₁ p₂ : Pool α) (k : κ) : Prop :=
+  servedBy score p₁ k = servedBy score p₂ k
+
+/-- the exclusion clause: the two entry nodes disagree on the eligibility of one of the two serving nodes -/
+def excl_split_view (score : κ → α → Nat) (p₁ p₂ : Pool α) (k : κ) : Bool :=
+  Spec.splitView p₁.self p₁.unhealthy p₂.self p₂.unhealthy (servedBy score p₁ k) (servedBy score p₂ k)
+
+/-- Outside the clause the property holds: reachable pools with the same peer set, each a member of it,
+    whose eligibility views agree on the two serving nodes, serve the key from the same node — for every
+    pair of health views, not only a common one. -/
+theorem single_server_partial {le : α → α → Bool} (ho : TotalOrder le) (score : κ → α → Nat)
+    (self₁ self₂ : α) (peers₁ peers₂ : List α) (ops₁ ops₂ : List (PoolOp α))
+    (hm : ∀ x, x ∈ (reachable le self₁ peers₁ ops₁).nodes ↔ x ∈ (reachable le self₂ peers₂ ops₂).nodes)
+    (hin₁ : (reachable le self₁ peers₁ ops₁).self ∈ (reachable le self₁ peers₁ ops₁).nodes)
+    (hin₂ : (reachable le self₂ peers₂ ops₂).self ∈ (reachable le self₂ peers₂ ops₂).nodes)
+    (k : κ)
+    (hex : excl_split_view score (reachable le self₁ peers₁ ops₁) (reachable le self₂ peers₂ ops₂) k = false) :
+    single_pool_full score (reachable le self₁ peers₁ ops₁) (reachable le self₂ peers₂ ops₂) k := by
+  have hs₁ : SSorted le (reachable le self₁ peers₁ ops₁).nodes :=
+    ssorted_runPool ho (ssorted_newPool ho self₁ peers₁) ops₁
+  have hs₂ : SSorted le (reachable le self₂ peers₂ ops₂).nodes :=
+    ssorted_runPool ho (ssorted_newPool ho self₂ peers₂) ops₂
+  generalize reachable le self₁ peers₁ ops₁ = p₁ at *
+  generalize reachable le self₂ peers₂ ops₂ = p₂ at *
+  have e := ssorted_ext ho hs₁ hs₂ hm
+  unfold excl_split_view Spec.splitView at hex
+  simp only [Bool.or_eq_false_iff, bne_eq_false_iff_eq] at hex
+  unfold single_pool_full
+  unfold servedBy getHealthyOwner rankedOf at hex ⊢
+  rw [← e] at hex ⊢
+  have hr₁ : p₁.self ∈ ranked (score k) p₁.nodes := (ranked_perm' (score k) p₁.nodes).mem_iff.mpr hin₁
+  have hr₂ : p₂.self ∈ ranked (score k) p₁.nodes := by
+    rw [e]; exact (ranked_perm' (score k) p₂.nodes).mem_iff.mpr hin₂
+  exact healthyOwner_agree p₁.self p₂.self p₁.unhealthy p₂.unhealthy _ hr₁ hr₂ hex.1 hex.2
+
+/-- score and order of the witness: node 1 scores highest for every key -/
+def wScore : Nat → Nat → Nat := fun _ n => 10 - n
+def wLe : Nat → Nat → Bool := fun a b => decide (a ≤ b)
+
+/-- The defect, on the model: three nodes 1, 2, 3 with the same peer set; node 2 has marked node 1
+    unhealthy, node 1 (being local) counts itself healthy.  A key whose owner is node 1 is served by node 1
+    when it enters at node 1 and by node 2 when it enters at node 2; the clause holds. -/
+theorem split_view_witness :
+    (reachable wLe 1 [2, 3] []).nodes = (reachable wLe 2 [3, 1] [.health 1 false]).nodes ∧
+    ¬ single_pool_full wScore (reachable wLe 1 [2, 3] []) (reachable wLe 2 [3, 1] [.health 1 false]) 0 ∧
+    excl_split_view wScore (reachable wLe 1 [2, 3] []) (reachable wLe 2 [3, 1] [.health 1 false]) 0 = true := by
+  unfold single_pool_full
+  decide
 
 /-! ## the edge of the hash assumption, and non-vacuity -/
 
